@@ -146,21 +146,16 @@ def h_two_sources_impl(a, inst):
         return False
     pre = [a.p0] + list(a.pos)
     preempts = []
+    if inst["P"] > 1 and pre[1] <= pre[0]:
+        return True  # ordered positions only (the unordered pair is the same schedule)
     for i in range(inst["P"]):
         lo = inst["lo"] if i == 0 else 0
         hi = min(inst["hi"] if i == 0 else 10 ** 6, L + 2)
-        p = hi
-        for c in range(lo, hi + 1):
-            if pre[i] == c:
-                p = c
-        t = 0
-        for c in (0, 1):
-            if a.tgt[i] == c:
-                t = c
-        preempts.append((p, t))
-    if inst["P"] > 1 and preempts[1][0] <= preempts[0][0]:
-        return True  # ordered positions only (the unordered pair is the same schedule)
-    ok, _ = run(preempts)
+        if lo > hi or pre[i] > hi:
+            return True  # beyond the end of the run: no preemption there (covered by the schedules with fewer preemptions)
+        preempts.append((gate.concrete(pre[i], lo, hi), gate.concrete(a.tgt[i], 0, 1)))
+    with gate.untraced():
+        ok, _ = run(preempts)
     cover("ran")
     return ok
 
@@ -218,17 +213,11 @@ def h_window_timer(a, inst):
     pre = [a.p0] + list(a.pos)
     preempts = []
     for i in range(inst["P"]):
-        hi = min(200, L + 2)
-        p = hi
-        for c in range(0, hi + 1):
-            if pre[i] == c:
-                p = c
-        t = 0
-        for c in range(4):
-            if a.tgt[i] == c:
-                t = c
-        preempts.append((p, t))
-    ok, _ = run(preempts)
+        if pre[i] > L + 2:
+            return True  # beyond the end of the run
+        preempts.append((gate.concrete(pre[i], 0, L + 2), gate.concrete(a.tgt[i], 0, 3)))
+    with gate.untraced():
+        ok, _ = run(preempts)
     cover("ran")
     return ok
 
